@@ -86,7 +86,7 @@ CLAIMS = {
   'Theorems over a model that keeps what the C structure keeps (traversal order of every row and every column, entry pool counters): the invariant (sorted rows and columns, row/column consistency, bounds, free + used = 1024 x blocks) is preserved by EVERY operation sequence (C17_run_inv); find (last-of-row, last-of-column, parallel scan) <=> membership; idempotent insert; delete; clear; copy, copyrows, copycols, copy_filled_matrix specifications. Tie: generated operation sequences on real matrices (all traversals forwards and backwards, find on every cell, pool counters after each mutation; every sequence up to length 4/5 over a 12-operation alphabet; random long ones with recycled entries and several pool blocks; sparse<->dense conversions on widths spanning several words) under ASan/LSan, compared with the model and with a Python set oracle.',
   'Lean 4 refinement proof (list model -> set) + operation-sequence correspondence', 'DESIGN.md section 4, C17'),
  'C18': (M, 'proof',
-  'Theorems: the packed-word operations (get, set, flip, clear, xor_rows, copy, copyrows) equal the bit-matrix operation for every dimension and preserve the representation invariant; of_hweight32_naive (translated each run) equals the bit count; the solver theorems of C03 (unique solution iff full column rank, failure otherwise). PARTIAL: of_popcount_3 and of_hweight32 are proved only on words with a single non-zero byte lane and compared with the definition on boundary and random words every run; copycols and the weight functions are tied by correspondence. Tie: every exported dense operation on dimensions across word boundaries vs the model and a Python bit-matrix oracle; solver on all 0/1 systems with p,q<=3 with every NULL pattern of the right-hand sides and random systems up to 40x40.',
+  'Theorems: the packed-word operations (get, set, flip, clear, xor_rows, copy, copyrows) equal the bit-matrix operation for every dimension and preserve the representation invariant; all popcount helpers, translated from the C source each run, equal the bit count for EVERY word: of_hweight32_naive, the SWAR routines of_hweight32 (all w < 2^32) and of_popcount_3 (all x < 2^64; byte-lane decomposition, per-lane facts by kernel evaluation over one byte, final multiplication/folding by linear arithmetic), the byte table of_hw8table and the four-lookup sum of of_hweight32_table; the solver theorems of C03 (unique solution iff full column rank, failure otherwise). copycols and the row/column weight loops are tied by correspondence. Tie: every exported dense operation on dimensions across word boundaries vs the model and a Python bit-matrix oracle; solver on all 0/1 systems with p,q<=3 with every NULL pattern of the right-hand sides and random systems up to 40x40.',
   'Lean 4 theorems (bit-matrix, solver) + exhaustive small-system correspondence', 'DESIGN.md section 4, C18'),
  'C08': (M, 'proof',
   'Partial by nature: theorem over the allocation-ledger model (what the application owns after release is exactly the library-allocated '
